@@ -194,7 +194,7 @@ func c09PendingCheck(w *World, r *Report, ef *Effects) {
 			if rp.Class != RetSuccess {
 				continue
 			}
-			if reach, _ := g.PathExists(posOf(pcall), posOf(rp.Ret), Avoid{}.withEdges(falseEdges...)); reach {
+			if reach, _ := g.PathExists(posOf(pcall), retPos(rp), Avoid{}.withEdges(falseEdges...)); reach {
 				okErr = false
 			}
 		}
